@@ -118,6 +118,8 @@ typedef struct { const char *name; int nvar; res_t (*call)(ctx_t *, int v); } op
 #define RES(okexpr, valexpr) do { res_t r_; errno = 0; r_.val = 0; r_.ok = (okexpr); r_.err = errno; r_.val ^= (valexpr); return r_; } while (0)
 static const char *kv(ctx_t *c, int v) { return v == 0 ? key(c->n ? c->n / 2 : 999) : key(999); }   /* present / absent */
 
+/* a walk that is resumed after a reported allocation failure (same cursor, no more injected failures) must deliver the same sequence as an undisturbed walk */
+#define RESUME(retry, tries) ((retry) && errno == ENOMEM && (tries)++ < 3 ? (vf_fail_at = 0, vf_fail_from = 0, vf_count("walks_resumed_after_a_reported_allocation_failure", 1), true) : false)
 /* hash table */
 static res_t h_put(ctx_t *c, int v) { RES(c->hash->put(c->hash, kv(c, v), "new-value", 10), 0); }
 static res_t h_putstr(ctx_t *c, int v) { RES(c->hash->putstr(c->hash, kv(c, v), "new-str"), 0); }
@@ -126,9 +128,9 @@ static res_t h_putint(ctx_t *c, int v) { RES(c->hash->putint(c->hash, kv(c, v), 
 static res_t h_get(ctx_t *c, int v) { size_t sz = 0; void *d; res_t r; errno = 0; d = c->hash->get(c->hash, kv(c, v), &sz, true); r.err = errno; r.ok = d != NULL || r.err == ENOENT; r.val = take(d, sz); return r; }
 static res_t h_getstr(ctx_t *c, int v) { char *d; res_t r; errno = 0; d = c->hash->getstr(c->hash, kv(c, v), true); r.err = errno; r.ok = d != NULL || r.err == ENOENT; r.val = take(d, d ? strlen(d) + 1 : 0); return r; }
 static res_t h_getint(ctx_t *c, int v) { res_t r; errno = 0; int64_t x = c->hash->getint(c->hash, kv(c, v)); r.err = errno; r.ok = r.err != ENOMEM; r.val = (uint64_t)x; return r; }
-static res_t h_walk(ctx_t *c, int v) { (void)v; qhashtbl_obj_t o; memset(&o, 0, sizeof o); res_t r; r.val = VF_H0; r.ok = true; int g = 0;
-    while (1) { errno = 0; if (!c->hash->getnext(c->hash, &o, true)) { r.err = errno; r.ok = r.err != ENOMEM; break; } r.val = vf_hash(o.name, strlen(o.name), r.val); r.val = vf_hash(o.data, o.size, r.val); free(o.name); free(o.data); if (++g > 200) break; } return r; }
-static op_t OPS_HASH[] = {{"put", 2, h_put}, {"putstr", 2, h_putstr}, {"putstrf", 2, h_putstrf}, {"putint", 2, h_putint}, {"get(newmem)", 2, h_get}, {"getstr(newmem)", 2, h_getstr}, {"getint", 2, h_getint}, {"getnext(newmem)", 1, h_walk}, {NULL, 0, NULL}};
+static res_t h_walk(ctx_t *c, int v) { qhashtbl_obj_t o; memset(&o, 0, sizeof o); res_t r; r.val = VF_H0; r.ok = true; int g = 0, tries = 0;
+    while (1) { errno = 0; if (!c->hash->getnext(c->hash, &o, true)) { if (RESUME(v == 1, tries)) continue; r.err = errno; r.ok = r.err != ENOMEM; break; } r.val = vf_hash(o.name, strlen(o.name), r.val); r.val = vf_hash(o.data, o.size, r.val); free(o.name); free(o.data); if (++g > 200) break; } return r; }
+static op_t OPS_HASH[] = {{"put", 2, h_put}, {"putstr", 2, h_putstr}, {"putstrf", 2, h_putstrf}, {"putint", 2, h_putint}, {"get(newmem)", 2, h_get}, {"getstr(newmem)", 2, h_getstr}, {"getint", 2, h_getint}, {"getnext(newmem)", 2, h_walk}, {NULL, 0, NULL}};
 
 /* list table */
 static res_t lt_put(ctx_t *c, int v) { RES(c->ltbl->put(c->ltbl, v ? key(999) : key(0), "new-value", 10), 0); }
@@ -140,8 +142,8 @@ static res_t lt_getstr(ctx_t *c, int v) { char *d; res_t r; errno = 0; d = c->lt
 static res_t lt_getint(ctx_t *c, int v) { res_t r; errno = 0; int64_t x = c->ltbl->getint(c->ltbl, v ? key(999) : key(0)); r.err = errno; r.ok = r.err != ENOMEM; r.val = (uint64_t)x; return r; }
 static res_t lt_getmulti(ctx_t *c, int v) { size_t n = 0; res_t r; errno = 0; qlisttbl_data_t *o = c->ltbl->getmulti(c->ltbl, (v & 1) ? key(999) : key(0), v < 2, &n); r.err = errno; r.val = VF_H0 + n;
     r.ok = r.err != ENOMEM; if (o) { for (size_t i = 0; i < n; i++) r.val = vf_hash(o[i].data, o[i].size, r.val); c->ltbl->freemulti(o); } return r; }
-static res_t lt_walk(ctx_t *c, int v) { qlisttbl_obj_t o; memset(&o, 0, sizeof o); res_t r; r.val = VF_H0; r.ok = true; int g = 0; const char *nm = v ? key(0) : NULL;
-    while (1) { errno = 0; if (!c->ltbl->getnext(c->ltbl, &o, nm, true)) { r.err = errno; r.ok = r.err != ENOMEM; break; } r.val = vf_hash(o.name, strlen(o.name), r.val); r.val = vf_hash(o.data, o.size, r.val); free(o.name); free(o.data); if (++g > 200) break; } return r; }
+static res_t lt_walk(ctx_t *c, int v) { qlisttbl_obj_t o; memset(&o, 0, sizeof o); res_t r; r.val = VF_H0; r.ok = true; int g = 0, tries = 0; const char *nm = (v & 1) ? key(0) : NULL;
+    while (1) { errno = 0; if (!c->ltbl->getnext(c->ltbl, &o, nm, true)) { if (RESUME(v >= 2, tries)) continue; r.err = errno; r.ok = r.err != ENOMEM; break; } r.val = vf_hash(o.name, strlen(o.name), r.val); r.val = vf_hash(o.data, o.size, r.val); free(o.name); free(o.data); if (++g > 200) break; } return r; }
 static res_t lt_sort(ctx_t *c, int v) { (void)v; res_t r; errno = 0; c->ltbl->sort(c->ltbl); r.err = errno; r.ok = r.err != ENOMEM; r.val = 0; return r; }
 static char LOADPATH[64], SAVEPATH[64];
 static res_t lt_load(ctx_t *c, int v) { res_t r; errno = 0; ssize_t n = c->ltbl->load(c->ltbl, LOADPATH, '=', v == 0); r.err = errno; r.ok = n >= 0; r.val = (uint64_t)n; return r; }
@@ -150,7 +152,7 @@ static res_t lt_save(ctx_t *c, int v) { res_t r; errno = 0; bool b = c->ltbl->sa
         int fd = open(SAVEPATH, O_RDONLY); char *t = hm_alloc(65536); ssize_t got = fd >= 0 ? read(fd, t, 65535) : -1; if (fd >= 0) close(fd); if (got < 0) got = 0; t[got] = 0;
         for (char *l = t; *l; ) { char *e = strchr(l, '\n'); size_t n = e ? (size_t)(e - l) : strlen(l); if (n && l[0] != '#') r.val = vf_hash(l, n, r.val); l += n + (e ? 1 : 0); } hm_free(t); } return r; }
 static op_t OPS_LISTTBL[] = {{"put", 2, lt_put}, {"putstr", 2, lt_putstr}, {"putstrf", 2, lt_putstrf}, {"putint", 2, lt_putint}, {"get(newmem)", 2, lt_get}, {"getstr(newmem)", 2, lt_getstr}, {"getint", 2, lt_getint},
-    {"getmulti", 4, lt_getmulti}, {"getnext(newmem)", 2, lt_walk}, {"sort", 1, lt_sort}, {"load", 2, lt_load}, {"save", 2, lt_save}, {NULL, 0, NULL}};
+    {"getmulti", 4, lt_getmulti}, {"getnext(newmem)", 4, lt_walk}, {"sort", 1, lt_sort}, {"load", 2, lt_load}, {"save", 2, lt_save}, {NULL, 0, NULL}};
 
 /* list */
 static int pos_of(ctx_t *c, int v) { return v == 0 ? 0 : v == 1 ? c->n / 2 : c->n ? c->n - 1 : 0; }
@@ -163,13 +165,13 @@ static res_t l_getlast(ctx_t *c, int v) { (void)v; size_t sz = 0; void *d; res_t
 static res_t l_popat(ctx_t *c, int v) { size_t sz = 0; void *d; res_t r; errno = 0; d = c->list->popat(c->list, pos_of(c, v), &sz); r.err = errno; r.ok = d != NULL || r.err == ERANGE; r.val = take(d, sz); return r; }
 static res_t l_popfirst(ctx_t *c, int v) { (void)v; size_t sz = 0; void *d; res_t r; errno = 0; d = c->list->popfirst(c->list, &sz); r.err = errno; r.ok = d != NULL || r.err == ERANGE; r.val = take(d, sz); return r; }
 static res_t l_poplast(ctx_t *c, int v) { (void)v; size_t sz = 0; void *d; res_t r; errno = 0; d = c->list->poplast(c->list, &sz); r.err = errno; r.ok = d != NULL || r.err == ERANGE; r.val = take(d, sz); return r; }
-static res_t l_walk(ctx_t *c, int v) { (void)v; qlist_obj_t o; memset(&o, 0, sizeof o); res_t r; r.val = VF_H0; r.ok = true; r.err = 0; int g = 0, cnt = 0;
-    while (1) { errno = 0; if (!c->list->getnext(c->list, &o, true)) { r.err = errno; break; } r.val = vf_hash(o.data, o.size, r.val); free(o.data); cnt++; if (++g > 200) break; }
+static res_t l_walk(ctx_t *c, int v) { qlist_obj_t o; memset(&o, 0, sizeof o); res_t r; r.val = VF_H0; r.ok = true; r.err = 0; int g = 0, cnt = 0, tries = 0;
+    while (1) { errno = 0; if (!c->list->getnext(c->list, &o, true)) { if (RESUME(v == 1, tries)) continue; r.err = errno; break; } r.val = vf_hash(o.data, o.size, r.val); free(o.data); cnt++; if (++g > 200) break; }
     r.ok = cnt == (int)c->list->num; return r; }   /* getnext signals ENOMEM only by ending early */
 static res_t l_toarray(ctx_t *c, int v) { (void)v; size_t sz = 0; void *d; res_t r; errno = 0; d = c->list->toarray(c->list, &sz); r.err = errno; r.ok = d != NULL || r.err == ENOENT; r.val = take(d, sz); return r; }
 static res_t l_tostring(ctx_t *c, int v) { (void)v; char *d; res_t r; errno = 0; d = c->list->tostring(c->list); r.err = errno; r.ok = d != NULL || r.err == ENOENT; r.val = take(d, d ? strlen(d) + 1 : 0); return r; }
 static op_t OPS_LIST[] = {{"addfirst", 1, l_addfirst}, {"addlast", 1, l_addlast}, {"addat", 3, l_addat}, {"getat(newmem)", 3, l_getat}, {"getfirst(newmem)", 1, l_getfirst}, {"getlast(newmem)", 1, l_getlast},
-    {"popat", 3, l_popat}, {"popfirst", 1, l_popfirst}, {"poplast", 1, l_poplast}, {"getnext(newmem)", 1, l_walk}, {"toarray", 1, l_toarray}, {"tostring", 1, l_tostring}, {NULL, 0, NULL}};
+    {"popat", 3, l_popat}, {"popfirst", 1, l_popfirst}, {"poplast", 1, l_poplast}, {"getnext(newmem)", 2, l_walk}, {"toarray", 1, l_toarray}, {"tostring", 1, l_tostring}, {NULL, 0, NULL}};
 
 /* queue / stack */
 #define QSOPS(P, FIELD, TAB) \
@@ -210,18 +212,18 @@ static res_t v_poplast(ctx_t *c, int v) { (void)v; void *d; res_t r; errno = 0; 
 static res_t v_resize(ctx_t *c, int v) { RES(c->vec->resize(c->vec, v == 0 ? (size_t)c->n + 1 : v == 1 ? (size_t)c->n + 20 : (size_t)(c->n / 2 + 1)), 0); }
 static res_t v_reverse(ctx_t *c, int v) { (void)v; res_t r; errno = 0; c->vec->reverse(c->vec); r.err = errno; r.ok = r.err != ENOMEM; r.val = 0; return r; }
 static res_t v_toarray(ctx_t *c, int v) { (void)v; size_t cnt = 0; void *d; res_t r; errno = 0; d = c->vec->toarray(c->vec, &cnt); r.err = errno; r.ok = d != NULL || r.err == ENOENT; r.val = take(d, cnt * 8) + cnt; return r; }
-static res_t v_walk(ctx_t *c, int v) { (void)v; qvector_obj_t o; memset(&o, 0, sizeof o); res_t r; r.val = VF_H0; r.ok = true; int g = 0;
-    while (1) { errno = 0; if (!c->vec->getnext(c->vec, &o, true)) { r.err = errno; r.ok = r.err != ENOMEM; break; } r.val = vf_hash(o.data, 8, r.val); free(o.data); if (++g > 200) break; } return r; }
+static res_t v_walk(ctx_t *c, int v) { qvector_obj_t o; memset(&o, 0, sizeof o); res_t r; r.val = VF_H0; r.ok = true; int g = 0, tries = 0;
+    while (1) { errno = 0; if (!c->vec->getnext(c->vec, &o, true)) { if (RESUME(v == 1, tries)) continue; r.err = errno; r.ok = r.err != ENOMEM; break; } r.val = vf_hash(o.data, 8, r.val); free(o.data); if (++g > 200) break; } return r; }
 static op_t OPS_VECTOR[] = {{"addfirst", 1, v_addfirst}, {"addlast", 1, v_addlast}, {"addat", 3, v_addat}, {"getat(newmem)", 3, v_getat}, {"getfirst(newmem)", 1, v_getfirst}, {"getlast(newmem)", 1, v_getlast},
-    {"popat", 3, v_popat}, {"popfirst", 1, v_popfirst}, {"poplast", 1, v_poplast}, {"resize", 3, v_resize}, {"reverse", 1, v_reverse}, {"toarray", 1, v_toarray}, {"getnext(newmem)", 1, v_walk}, {NULL, 0, NULL}};
+    {"popat", 3, v_popat}, {"popfirst", 1, v_popfirst}, {"poplast", 1, v_poplast}, {"resize", 3, v_resize}, {"reverse", 1, v_reverse}, {"toarray", 1, v_toarray}, {"getnext(newmem)", 2, v_walk}, {NULL, 0, NULL}};
 
 /* static hash table */
 static res_t a_get(ctx_t *c, int v) { size_t sz = 0; void *d; res_t r; errno = 0; d = c->harr->get(c->harr, kv(c, v), &sz); r.err = errno; r.ok = d != NULL || r.err == ENOENT; r.val = take(d, sz); return r; }
 static res_t a_getstr(ctx_t *c, int v) { char *d; res_t r; errno = 0; d = c->harr->getstr(c->harr, kv(c, v)); r.err = errno; r.ok = d != NULL || r.err == ENOENT; r.val = take(d, d ? strlen(d) + 1 : 0); return r; }
 static res_t a_putstrf(ctx_t *c, int v) { RES(c->harr->putstrf(c->harr, kv(c, v), "%d-%s", 42, "fmt"), 0); }
-static res_t a_walk(ctx_t *c, int v) { (void)v; qhasharr_obj_t o; int idx = 0; res_t r; r.val = VF_H0; r.ok = true; int g = 0;
-    while (1) { errno = 0; if (!c->harr->getnext(c->harr, &o, &idx)) { r.err = errno; r.ok = r.err != ENOMEM; break; } r.val = vf_hash(o.name, o.namesize, r.val); r.val = vf_hash(o.data, o.datasize, r.val); free(o.name); free(o.data); if (++g > 200) break; } return r; }
-static op_t OPS_HASHARR[] = {{"get", 2, a_get}, {"getstr", 2, a_getstr}, {"putstrf", 2, a_putstrf}, {"getnext", 1, a_walk}, {NULL, 0, NULL}};
+static res_t a_walk(ctx_t *c, int v) { qhasharr_obj_t o; int idx = 0; res_t r; r.val = VF_H0; r.ok = true; int g = 0, tries = 0;
+    while (1) { errno = 0; if (!c->harr->getnext(c->harr, &o, &idx)) { if (RESUME(v == 1, tries)) continue; r.err = errno; r.ok = r.err != ENOMEM; break; } r.val = vf_hash(o.name, o.namesize, r.val); r.val = vf_hash(o.data, o.datasize, r.val); free(o.name); free(o.data); if (++g > 200) break; } return r; }
+static op_t OPS_HASHARR[] = {{"get", 2, a_get}, {"getstr", 2, a_getstr}, {"putstrf", 2, a_putstrf}, {"getnext", 2, a_walk}, {NULL, 0, NULL}};
 
 static op_t *OPTAB[NKINDS] = {OPS_HASH, OPS_LISTTBL, OPS_LIST, OPS_QUEUE, OPS_STACK, OPS_GROW, OPS_VECTOR, OPS_HASHARR};
 
@@ -271,6 +273,7 @@ static void enumerate_op(int kind, op_t *o, int v, int n, int cfg) {
         } else {
             vf_count("oom_completed_despite_failure", 1);
             if (!rB.ok) viol(KNAME[kind], o->name, "harness", "reference run failed");
+            else if (rA.val != rB.val && strstr(o->name, "getnext")) viol(KNAME[kind], o->name, "resumed-walk-differs", "a walk resumed with the same cursor after a reported allocation failure delivered a different sequence than an undisturbed walk (state n=%d, k=%ld)", n, k);
             else if (rA.val != rB.val) viol(KNAME[kind], o->name, "wrong-result-reported-as-success", "call reported success but returned something else than the fault-free reference (state n=%d, k=%ld)", n, k);
             else if (dA != dB) viol(KNAME[kind], o->name, "wrong-state-reported-as-success", "call reported success but the resulting state differs from the fault-free reference (state n=%d, k=%ld)", n, k);
             else if (battery(&A) != battery(&B)) viol(KNAME[kind], o->name, "battery-after-success", "normal operations afterwards behave differently from the reference twin");
